@@ -98,6 +98,15 @@ impl<'a> TableRef<'a> {
         if self.s.fails { return Err(StorageError) }
         Ok(if *id == self.s.probe { self.s.present.get() } else { nondet_bool() })
     }
+    // (the whole table API is offered so that a change of WHICH operation the code uses still compiles and is judged by its effect)
+    pub fn insert(&self, id: &TxId, v: &()) -> Result<(), StorageError> { self.replace(id, v).map(|_| ()) }
+    pub fn get(&self, id: &TxId) -> Result<Option<std::borrow::Cow<'a, ()>>, StorageError> { Ok(if self.contains_key(id)? { Some(std::borrow::Cow::Owned(())) } else { None }) }
+    pub fn take(&self, id: &TxId) -> Result<Option<()>, StorageError> {
+        if self.s.fails { return Err(StorageError) }
+        self.s.writes.set(self.s.writes.get() + 1);
+        if *id == self.s.probe { let was = self.s.present.replace(false); Ok(if was { Some(()) } else { None }) } else { Ok(None) }
+    }
+    pub fn remove(&self, id: &TxId) -> Result<(), StorageError> { self.take(id).map(|_| ()) }
     pub fn replace(&self, id: &TxId, _v: &()) -> Result<Option<()>, StorageError> {
         if self.s.fails { return Err(StorageError) }
         self.s.writes.set(self.s.writes.get() + 1);
